@@ -329,7 +329,13 @@ impl GrammarBuilder {
 
                 // Inherit meta-data from Rule.
                 for (key, data) in &rule.meta {
-                    if !new_production.meta.contains_key(key) {
+                    // `left` and `right` are values of the same meta-data
+                    // (associativity). If the production defines either, the
+                    // associativity of the rule is not inherited.
+                    let assoc_defined = (key == "left" || key == "right")
+                        && (new_production.meta.contains_key("left")
+                            || new_production.meta.contains_key("right"));
+                    if !new_production.meta.contains_key(key) && !assoc_defined {
                         new_production.meta.insert(key.clone(), data.clone());
                     }
                 }
